@@ -34,8 +34,29 @@ static CAP_LOCK: RwLock<()> = RwLock::new(());
 static DIR_CTR: AtomicU64 = AtomicU64::new(0);
 
 pub struct TempDir(pub PathBuf);
+/// Removes fixture directories left behind by harness processes that were killed.
+fn sweep_stale_temp_dirs() {
+    static ONCE: std::sync::Once = std::sync::Once::new();
+    ONCE.call_once(|| {
+        if let Ok(rd) = std::fs::read_dir(std::env::temp_dir()) {
+            for e in rd.flatten() {
+                let name = e.file_name().to_string_lossy().to_string();
+                let parts: Vec<&str> = name.split('-').collect();
+                if parts.len() == 4 && parts[0] == "hsv" {
+                    if let Ok(pid) = parts[2].parse::<u32>() {
+                        if pid != std::process::id() && !Path::new(&format!("/proc/{}", pid)).exists() {
+                            let _ = std::fs::remove_dir_all(e.path());
+                        }
+                    }
+                }
+            }
+        }
+    });
+}
+
 impl TempDir {
     pub fn new(tag: &str) -> TempDir {
+        sweep_stale_temp_dirs();
         let p = std::env::temp_dir().join(format!("hsv-{}-{}-{}", tag, std::process::id(), DIR_CTR.fetch_add(1, Ordering::SeqCst)));
         let _ = std::fs::remove_dir_all(&p);
         std::fs::create_dir_all(&p).expect("create temp dir");
